@@ -166,6 +166,10 @@ impl ReceiverInner {
     #[verifier::external_body]
     pub fn close_with_error(&mut self, error: Option<AmqpError>) -> (r: Result<(), DetachError>) ensures r == rdetach_result(*old(self), true, error) { unimplemented!() }
 }
+/// `From<IllegalLinkStateError> for DetachError` (link/error.rs: the same condition, the same stop reason); opaque here, the conversion uninterpreted
+pub uninterp spec fn ills_to_detach(e: IllegalLinkStateError) -> DetachError;
+pub trait ErrInto<T>: Sized { spec fn conv(self) -> T; fn err_into(self) -> (r: T) ensures r == self.conv(); }
+impl ErrInto<DetachError> for IllegalLinkStateError { open spec fn conv(self) -> DetachError { ills_to_detach(self) } #[verifier::external_body] fn err_into(self) -> (r: DetachError) { unimplemented!() } }
 pub struct Receiver { pub inner: ReceiverInner }
 pub struct DetachedReceiver { pub inner: ReceiverInner }
 impl Receiver {
@@ -191,6 +195,20 @@ impl Receiver {
 //@@ subst `self.` => `this.` rule=R2
 //@@ spec
     ensures r == rdetach_result(this.inner, true, None::<AmqpError>),        // [C13.api.close-is-a-closing-detach] (receiver)
+//@@ end
+
+//@@ fn file=fe2o3-amqp/src/link/receiver.rs impl=`impl Receiver` name=close_with_error
+//@@ awaitcall
+//@@ qmark
+//@@ generics
+//@@ subst `(mut self,` => `(mut this: Receiver,` rule=R2
+//@@ subst `self.` => `this.` rule=R2
+//@@ param error : AmqpError
+//@@ subst `error.into()` => `error_into(error)` rule=R16
+//@@ spec
+    ensures
+        set_credit_result(this.inner, 0) is Err ==> r == Err::<(), DetachError>(ills_to_detach(set_credit_result(this.inner, 0)->Err_0)),       // [C13.api.close-with-error-definite-failure] when the flow that takes the credit back cannot be written the link is gone already: the caller gets that failure (with the session's stop reason), no closing handshake is attempted
+        set_credit_result(this.inner, 0) is Ok ==> exists|mid: ReceiverInner| mid.credits@ == this.inner.credits@.push(0u32) && r == #[trigger] rdetach_result(mid, true, Some(error)),       // [C13.api.close-with-error-carries-the-error] (receiver) the credit is taken back first (no transfer is invited into a link that is closing), then the CLOSING handshake carries this error
 //@@ end
 
 //@@ fn file=fe2o3-amqp/src/link/receiver.rs impl=`impl Receiver` name=detach
